@@ -322,6 +322,8 @@ func cmdSeatExplore(args []string) {
 	emit := fs.String("emit", "all", "all | changing (calls that change the seat map, and every Next) | next (Next only)")
 	fork := fs.String("fork", "replay", "replay: states are rebuilt by replaying their op path | snapshot: ApplyStates")
 	sample := fs.Int("sample", 1, "record the calls of every k-th state only (all states are still explored)")
+	lateJoin := fs.Int("latejoin", 0, "k > 0: from every k-th state, for every empty seat strictly between a playable dealer and big blind, play Join, SitIn, Next, Next as a short run (C08, second sentence)")
+	frontier := fs.String("frontier", "bfs", "bfs | random (expand a random state of the frontier: reaches deep states of a graph too large to finish)")
 	seed := fs.Int64("seed", 1, "")
 	fs.Parse(args)
 	rr := rand.New(rand.NewSource(*seed))
@@ -330,6 +332,9 @@ func cmdSeatExplore(args []string) {
 	type node struct {
 		path []SOp
 		snap *sm.SeatManagerState
+		// positions and occupied seats right after the last successful Next on the path (history of the late-joiner clause)
+		posAtNext []int
+		occAtNext []int
 	}
 	mk := func(nd node) *sm.SeatManager {
 		if *fork == "snapshot" && nd.snap != nil {
@@ -338,12 +343,20 @@ func cmdSeatExplore(args []string) {
 		return rebuild(*max, nd.path)
 	}
 	seen := map[[20]byte]bool{}
-	queue := []node{{}}
+	queue := []node{{posAtNext: []int{-1, -1, -1}, occAtNext: []int{}}}
 	seen[seatKey(sm.NewSeatManager(*max), *anon)] = true
-	states, trans, panics := 0, 0, 0
+	states, trans, panics, lateRuns := 0, 0, 0, 0
 	for len(queue) > 0 && states < *maxStates {
-		nd := queue[0]
-		queue = queue[1:]
+		var nd node
+		if *frontier == "random" {
+			k := rr.Intn(len(queue))
+			nd = queue[k]
+			queue[k] = queue[len(queue)-1]
+			queue = queue[:len(queue)-1]
+		} else {
+			nd = queue[0]
+			queue = queue[1:]
+		}
 		states++
 		m0 := mk(nd)
 		pre := projSeat(m0)
@@ -397,11 +410,45 @@ func cmdSeatExplore(args []string) {
 					// the random choice of Join(-1) is pinned for the rebuild: re-join the seat it got
 					np[len(np)-1] = SOp{Op: "Join", Seat: got, P: op.P}
 				}
-				queue = append(queue, node{np, snapshot(m)})
+				child := node{path: np, snap: snapshot(m), posAtNext: nd.posAtNext, occAtNext: nd.occAtNext}
+				if op.Op == "Next" && res == "" {
+					pj := projSeat(m)
+					child.posAtNext = []int{pj["dealer"].(int), pj["sb"].(int), pj["bb"].(int)}
+					child.occAtNext = []int{}
+					for i := 0; i < *max; i++ {
+						if st := m.GetSeat(i); st != nil && st.Player != nil {
+							child.occAtNext = append(child.occAtNext, i)
+						}
+					}
+				}
+				queue = append(queue, child)
+			}
+		}
+		// (after the probes of this state: the short runs below advance the trace's current state)
+		if *lateJoin > 0 && rr.Intn(*lateJoin) == 0 {
+			d, b := m0.Dealer(), m0.BigBlind()
+			playable := func(st *sm.Seat) bool { return st != nil && st.Player != nil && st.IsActive && !st.IsReserved }
+			if playable(d) && playable(b) && d.ID != b.ID {
+				for x := (d.ID + 1) % *max; x != b.ID; x = (x + 1) % *max {
+					if st := m0.GetSeat(x); st == nil || st.Player != nil {
+						continue
+					}
+					lateRuns++
+					mm := mk(nd)
+					o.write(M{"kind": "reset", "reset": true, "run": 50000000 + lateRuns, "op": "state", "seat": -1, "p": -1, "got": -1, "res": "", "state": projSeat(mm),
+						"posAtNext": nd.posAtNext, "occAtNext": nd.occAtNext})
+					for _, op := range []SOp{{Op: "Join", Seat: x, P: 99}, {Op: "SitIn", Seat: x}, {Op: "Next", Seat: -1}, {Op: "Next", Seat: -1}, {Op: "Next", Seat: -1}} {
+						got, res := applySeat(mm, op)
+						o.write(M{"kind": "main", "reset": false, "run": 50000000 + lateRuns, "op": op.Op, "seat": op.Seat, "p": op.P, "got": got, "res": res, "state": projSeat(mm)})
+						if res == "PANIC" {
+							break
+						}
+					}
+				}
 			}
 		}
 	}
 	tw.close()
-	b, _ := json.Marshal(M{"states": states, "distinct": len(seen), "transitions": trans, "panics": panics, "lines": o.lines})
+	b, _ := json.Marshal(M{"states": states, "distinct": len(seen), "transitions": trans, "panics": panics, "lateJoinRuns": lateRuns, "lines": o.lines})
 	fmt.Println(string(b))
 }
